@@ -75,6 +75,15 @@ func (w *World) VerifyFunction(fn *ssa.Function, opts VerifyOpts) (res *FuncResu
 		ex.assumeParamFacts(st, v.T, p.Type())
 	}
 	ex.cellsForWrittenSliceParams(fn, st)
+	// the zero bytes.Buffer / strings.Builder is empty (T7 model of their content)
+	for _, pn := range [][2]string{{"bytes", "Buffer"}, {"strings", "Builder"}} {
+		if pkg := w.Prog.ImportedPackage(pn[0]); pkg != nil {
+			if tn, ok := pkg.Members[pn[1]].(*ssa.Type); ok {
+				bt := tn.Type()
+				st.Assume(Eq(App(contentSym(bt), SString, w.Zero(bt)), StrLit("")))
+			}
+		}
+	}
 	if fn.Signature.Recv() != nil && len(fn.Params) > 0 {
 		if _, ok := fn.Params[0].Type().Underlying().(*types.Pointer); ok {
 			// T13: methods are invoked on non-nil receivers
@@ -98,6 +107,7 @@ func (w *World) VerifyFunction(fn *ssa.Function, opts VerifyOpts) (res *FuncResu
 		}
 	}
 	fr.Lvl = Var("lvl", SInt)
+	st.ghost["$out"] = SV{T: Var("out0", SString), Ty: SType{G: types.Typ[types.String]}}
 	st.ghost["$cap"] = SV{T: Var("cap0", SInt), Ty: tInt}
 	st.ghost["$dom"] = SV{T: Var("dom0", SInt), Ty: tInt}
 	fr.Entry = st.Clone()
@@ -202,7 +212,10 @@ func (ex *Ex) assumeParamFacts(st *State, t *T, ty types.Type) {
 func (ex *Ex) checkPosts(fr *Frame, st *State, results []Val, opts VerifyOpts) {
 	ctr := fr.Ctr
 	fn := fr.Fn
-	if opts.Vacuity && ex.covers < 6 {
+	ex.returns++
+	// sample: the first 6 returning paths, then every 7th up to 24 in total (a function whose first
+	// paths are all infeasible combinations of redundant tests must not look vacuous)
+	if opts.Vacuity && (ex.covers < 6 || (ex.covers < 24 && ex.returns%7 == 0)) {
 		// end-of-path canary: the facts accumulated along some returning path (with all background
 		// axioms and instantiations) must be satisfiable. Individual paths may be infeasible; the
 		// canary is refuted only if every sampled returning path is refuted.
